@@ -11,12 +11,15 @@ and the machine specification the theorems are stated against:
 Non-determinism / environment made explicit:
   * `MCfg.missed k x y`  - chip (x, y) silently misses the k-th fill (k = number of
     start packets seen before it); theorems quantify over every such function;
-  * `Ctl.compress`       - `regions.compress_flood_fill_regions` (property C12); the
-    theorems assume only its contract (`CompressOK`), the driver instantiates it with the
-    pairs the implementation produced and checks the contract on them.
+  * `Ctl.compress`       - `regions.compress_flood_fill_regions` (property C12); the general
+    theorems assume only its contract (`CompressOK`); the `_c12` theorems instantiate it with
+    C12's model (`compressC12` = `Rig.C12.compressD`), for which the contract is proved.  The driver
+    runs the controller both ways: with the pairs the implementation produced (and checks the
+    contract on them) and with C12's model (op `load` without a `compress` table).
 -/
 import RigModel.Model.Proto
 import RigModel.Model.C07
+import RigModel.Model.C12
 import RigModel.Gen.Load
 import RigModel.Gen.Scp
 
@@ -198,6 +201,14 @@ structure Ctl where
   nTries : Nat
   wait : Bool
   useCount : Bool
+
+/-- `compress_flood_fill_regions` as C12 models it: the `{(x, y): cores}` dictionary inserted into
+the region tree in iteration order, the pairs emitted and sorted (`Rig.C12.compress`); outside
+C12's domain (where the code raises ValueError) no pairs.  Props/C12 calls this `compressD`. -/
+def compressC12 (tg : List (Nat × Nat × List Nat)) : List (Nat × Nat) :=
+  match Rig.C12.compress (tg.flatMap fun e => e.2.2.map fun (p : Nat) => ((e.1 : Int), (e.2.1 : Int), (p : Int))) with
+  | .ok out => out
+  | .error _ => []
 
 /-- controller + machine + the request/reply log (newest first) -/
 structure Sim where
@@ -531,19 +542,27 @@ def initState (j : Json) : R MState := do
          rx := { idx := 0, pid := 0, nBlocks := 0, got := 0, next := 0, regs := [], data := [], ok := false },
          fills := 0 }
 
+/-- `[[targets, pairs], ...]`: what `compress_flood_fill_regions` returned in the implementation's run -/
+def tableOfJson (j : Json) : R (List (List (Nat × Nat × List Nat) × List (Nat × Nat))) := do
+  (← asArr j).mapM fun e =>
+    asPair e (fun t => do (← asArr t).mapM targetOfJson) (fun r => do (← asArr r).mapM pairOfJson)
+
 def handle (op : String) (j : Json) : R Json := do
   match op with
   | "load" =>
     -- run the controller model against the machine specification
     let mc ← mcfgOfJson j
     let m ← initState j
-    let table ← (← arr j "compress").mapM fun e =>
-      asPair e (fun t => do (← asArr t).mapM targetOfJson) (fun r => do (← asArr r).mapM pairOfJson)
+    -- `compress`: the table of (targets, pairs) the implementation produced, or - without a table -
+    -- C12's model of compress_flood_fill_regions (the controller of the `_c12` theorems)
+    let table ← opt j "compress" tableOfJson
     let c : Ctl := { buf := ← nat j "buf", appId := ← nat j "app_id", nTries := ← nat j "n_tries",
                      wait := ← bool j "wait", useCount := ← bool j "use_count",
-                     compress := fun t => match table.find? (fun e => e.1 == t) with
-                       | some e => e.2
-                       | none => [(4294967295, 0)] }
+                     compress := match table with
+                       | none => compressC12
+                       | some table => fun t => match table.find? (fun e => e.1 == t) with
+                         | some e => e.2
+                         | none => [(4294967295, 0)] }
     let apps ← (← arr j "apps").mapM appOfJson
     let r := loadApplication mc c { m := m, nn := ← nat j "nn", trace := [] } apps
     pure (Json.mkObj [
